@@ -7,8 +7,7 @@ re-targeted at the witness built with -DW_VOID: same targets, same contracts wit
 storage[] dropped (those members do not exist in the payload-free records).  A unit whose contract still mentions a
 payload after that is about the payload API and has no payload-free counterpart.
 
-Units over code that exists only once as text (generic templates) are tier 'thorough'; units over the payload-free
-specialisations run in both tiers.
+All of them run in both tiers (about a minute on 16 cores in total).
 """
 import copy, re
 from contracts.common import *
@@ -24,8 +23,8 @@ _M = r'(?:\.|->)'
 _SUBS = [
     (re.compile(r'%s%spayloadSet == __CPROVER_old\(%s%spayloadSet\)' % (_OP, _M, _OP, _M)), '1'),
     (re.compile(r'%s%sstorage\[(\d)\] == __CPROVER_old\(%s%sstorage\[\1\]\)' % (_OP, _M, _OP, _M)), '1'),
-    (re.compile(r'%s%spayloadSet == %s%spayloadSet\)?' % (_OP, _M, _OP, _M)), '1'),
-    (re.compile(r'%s%sstorage\[(\d)\] == %s%sstorage\[\1\]\)?' % (_OP, _M, _OP, _M)), '1'),
+    (re.compile(r'%s%spayloadSet == %s%spayloadSet' % (_OP, _M, _OP, _M)), '1'),
+    (re.compile(r'%s%sstorage\[(\d)\] == %s%sstorage\[\1\]' % (_OP, _M, _OP, _M)), '1'),
     (re.compile(r'!%s%spayloadSet' % (_OP, _M)), '1'),
     # ghost C of contracts/plans.py: payload presence / value of a task or of the request
     (re.compile(r'\(pd->tasks\._items\[slot\]\.payloadSet != 0\)'), '0'),
@@ -95,9 +94,8 @@ def void_unit(u):
         v['array_max'] = {k: n for k, n in u['array_max'].items() if not k.startswith('Payloads.')}
     if leftovers(v['contracts']) or leftovers(v['ghost']) or leftovers(v.get('ghost_fns', {})):
         return None
-    v['tier'] = u.get('tier', 'both') if SPECIALISED.search(u['id']) else ('thorough' if u.get('tier', 'both') in ('both', 'thorough') else 'never')
-    if v['tier'] == 'never':
-        return None
+    # (measured: all payload-free re-instantiations together cost about a minute on 16 cores, so they run in the quick tier too)
+    v['tier'] = u.get('tier', 'both')
     if u.get('bounded'):
         v['bounded'] = u['bounded']
     return v
